@@ -9,8 +9,9 @@
 (* theory on the specification side (Unresolvable <=> no solution; a witness exists otherwise);      *)
 (* AllocTrace.tla judges what the real code returned.                                                 *)
 (***************************************************************************************************)
-EXTENDS Rat, TLC, FiniteSets, Json
-CONSTANTS NProg, Grid, Initials, Totals, Factors, BoundPairs
+EXTENDS Rat, TLC, FiniteSets, Json, Randomization
+CONSTANTS NProg, Grid, Initials, Totals, Factors, BoundPairs,
+          Sample          \* 0: every case of the grid; k > 0: k random proposals x k initial allocations x k bound vectors per fixed part (many programs)
 VARIABLES fixed, case, obs
 vars == <<fixed, case, obs>>
 Progs == 1..NProg
@@ -45,8 +46,9 @@ Mk(f, x, x0, b) == [rel |-> f.rel, factor |-> f.factor,
                     bnd |-> IF f.years = 1 THEN <<b>> ELSE <<b, Rev(b)>>]
 Init == /\ fixed \in {[rel |-> r, factor |-> fa, tot |-> t, years |-> ys] : r \in BOOLEAN, fa \in Factors, t \in Totals, ys \in {1, 2}}
         /\ case = <<>> /\ obs = ""
+Sampled(S) == IF Sample = 0 THEN S ELSE RandomSubset(Sample, S)
 Pick == /\ case = <<>>
-        /\ \E x \in [Progs -> Grid], x0 \in Initials, b \in [Progs -> BoundPairs] :
+        /\ \E x \in Sampled([Progs -> Grid]), x0 \in Sampled(Initials), b \in Sampled([Progs -> BoundPairs]) :
               LET c == Mk(fixed, x, x0, b) IN
               /\ case' = c
               /\ obs' = ToJson([case |-> c, n |-> NProg,
@@ -58,7 +60,7 @@ Spec == Init /\ [][Pick]_vars
 \* ---- feasibility theory (P_spec) ----
 Has == case # <<>>
 \* impossible from the outset => really no allocation exists (checked over the proposal grid)
-UnresolvableSound == Has => \A y \in Years(case) : Unresolvable(case, y) => \A z \in [Progs -> Grid] : ~Satisfies(case, y, z)
+UnresolvableSound == (Has /\ Sample = 0) => \A y \in Years(case) : Unresolvable(case, y) => \A z \in [Progs -> Grid] : ~Satisfies(case, y, z)
 \* otherwise an allocation exists, so rejecting is never forced by the constraints themselves
 WitnessOK == Has => \A y \in Years(case) : ~Unresolvable(case, y) => Satisfies(case, y, Witness(case, y))
 ====
